@@ -38,7 +38,7 @@ def apply(RaggedArray, p, lens, d1, d2, sc, lens2=None, P=None):
     ra = mk_ragged(RaggedArray, d1, lens, p["dt1"])
     if p.get("pre"):
         from . import programs
-        ra = programs.step(ra, p["pre"], P, "s0")          # the ragged operand is a lazy selection
+        ra = programs.view_step(ra, p["pre"], P, "s0")          # the ragged operand is a lazy selection
     if kind == "unary":
         return uf(ra), ra, None
     if kind in ("rr", "rr_bad"):
@@ -95,10 +95,11 @@ def sym(E, p, kf):
     if p.get("pre"):
         from . import programs
         P = programs.ParamStore(E, B=2)
-        # the selection's own rows (second evaluation, so that observing does not disturb the operand under test)
-        ref = programs.step(mk_ragged(RaggedArray, d1, lens, p["dt1"]), p["pre"], P, "s0")
-        o = common.obs_ragged(ref)
-        sel_d1, sel_lens = o["flat"], [specs.I(x) for x in o["lens"]]
+        # the rows the selection holds, computed on plain lists (shapes and selection parameters forked)
+        lens = [E.concretize(l) if z3.is_expr(l) else l for l in lens]
+        conc_ = lambda t: (E.branch(t) if z3.is_bool(t) else E.concretize(t)) if z3.is_expr(t) else t
+        srows = programs.ref_view_rows(common.rows_of(list(d1), lens), p["pre"], P, "s0", conc=conc_)
+        sel_d1, sel_lens = [c for r in srows for c in r], [len(r) for r in srows]
         K = len(sel_lens)
         d2 = gen_cells(E, K, p["dt2"], "c")
         got = outcome(lambda: apply(RaggedArray, p, lens, d1, d2, sc, lens2, P))
@@ -107,13 +108,7 @@ def sym(E, p, kf):
             return dict(goal=False, got=got, case=case)
         res = got["items"][0]
         uf = _ufunc(p["op"])
-        sstarts, _ = specs.prefix_starts(sel_lens)
-        expanded = []
-        for q in range(len(sel_d1)):
-            cur = d2[-1]
-            for r in range(K - 2, -1, -1):
-                cur = z3.If(q < sstarts[r] + sel_lens[r], d2[r], cur)
-            expanded.append(cur)
+        expanded = [d2[r] for r in range(K) for _ in range(sel_lens[r])]
         a = typed(sel_d1, p["dt1"])
         b = typed(expanded, p["dt2"])
         exp = uf(a, b) if kind == "rc" else uf(b, a)
@@ -181,8 +176,7 @@ def conc(case):
         from . import programs
         P = programs.ParamStore(None, dict(case["params"]), B=2)
         got = outcome(lambda: apply(RaggedArray, p, lens, d1, d2, sc, lens2, P))
-        ref = programs.step(mk_ragged(RaggedArray, d1, lens, p["dt1"]), p["pre"], P, "s0")
-        rows = [typed(r, p["dt1"]) for r in common.rows_of(cells(ref.ravel()), cells(ref.shape[1]))]
+        rows = [typed(r, p["dt1"]) for r in programs.ref_view_rows(common.rows_of(list(d1), lens), p["pre"], P, "s0")]
         uf = _ufunc(p["op"])
         outs = []
         for r, row in enumerate(rows):
@@ -264,10 +258,11 @@ def jobs(tier, seed):
                 out.append(dict(base, op=op, kind=kind, dt1=dt1, dt2=dt2, sk=("pybool" if dt2 == "bool" else "np") if kind == "rs" else None))
     # column broadcast onto a lazily selected operand; float16 cells with IEEE-exact arithmetic (a broadcast that goes through
     # differences and a running sum is exact for integers but not for floats)
-    for pre in ("rowrev", "rowlist", "mask", "rowslice_a"):
+    for pre in ("rowrev", "rowlist", "rowlist3", "mask", "rowslice_a", "colrev", "colstep2"):
+        small = dict(R=3, L=1 if q else 2) if pre == "rowlist3" else dict(R=3, L=2)
         for kind in ("rc", "cr"):
-            out.append(dict(R=2 if q else 3, L=2, op="uf_f", kind=kind, dt1="float16", dt2="float16", sk=None, pre=pre))
-        out.append(dict(R=2 if q else 3, L=2, op="subtract", kind="rc", dt1="int64", dt2="int64", sk=None, pre=pre))
+            out.append(dict(small, op="uf_f", kind=kind, dt1="float16", dt2="float16", sk=None, pre=pre))
+        out.append(dict(small, op="subtract", kind="rc", dt1="int64", dt2="int64", sk=None, pre=pre))
     # python scalars on small dtypes (NEP 50: weak)
     for dt1 in ("uint8", "int8", "int32", "bool"):
         for sk in ("pyint", "pybool"):
